@@ -224,16 +224,19 @@ impl WTClient {
         receipt: &AppointmentReceipt,
     ) {
         if let Some(tower) = self.towers.get_mut(&tower_id) {
-            // DISCUSS: It may be nice to independently compute the slots and compare
-            tower.available_slots = available_slots;
-
             // The same commitment revocation may be notified more than once (e.g. after a restart of the
             // node), in which case the data is already there. Don't panic on that, the state is being held.
-            if let Err(e) = self
+            // The receipt and the balance that came with it are stored together or not at all: only show
+            // the new balance if it has been stored.
+            match self
                 .dbm
                 .store_appointment_receipt(tower_id, locator, available_slots, receipt)
             {
-                log::warn!("Appointment receipt for {locator} could not be stored (tower_id: {tower_id}): {e}");
+                // DISCUSS: It may be nice to independently compute the slots and compare
+                Ok(_) => tower.available_slots = available_slots,
+                Err(e) => {
+                    log::warn!("Appointment receipt for {locator} could not be stored (tower_id: {tower_id}): {e}")
+                }
             }
         } else {
             log::error!("Cannot add appointment receipt to tower. Unknown tower_id: {tower_id}");
